@@ -25,7 +25,15 @@ Fixpoint chain (g0 : group) (l : list group) : Prop :=
 
 Definition row (g : group) : id * N := (gid g, gheight g).
 
-Definition Inv (g0 : group) (s : state) : Prop :=
+(* what the sqlite index holds relative to the list: [SqSub] = no duplicate hash, every row is the row
+   of a listed group (rows may be missing: the state after rows were lost outside the node);
+   [SqOk] = moreover every listed group has its row *)
+Definition SqSub (l : list group) (q : list (id * N)) : Prop :=
+  NoDup (map fst q) /\ incl q (map row l).
+Definition SqOk (l : list group) (q : list (id * N)) : Prop :=
+  SqSub l q /\ incl (map row l) q.
+
+Definition InvP (P : list group -> list (id * N) -> Prop) (g0 : group) (s : state) : Prop :=
   exists l,
     chain g0 l /\
     hd_error l = Some (last s) /\
@@ -34,7 +42,21 @@ Definition Inv (g0 : group) (s : state) : Prop :=
     gcur (st s) = Some (gid (last s)) /\
     (forall x, groups (st s) x = lookup l x) /\
     (forall h, idx (st s) h = option_map gid (lookup_h l h)) /\
-    sq (st s) = map row l.
+    P l (sq (st s)).
+
+(* the invariant, and its weakening that survives the loss of sqlite rows *)
+Definition Inv : group -> state -> Prop := InvP SqOk.
+Definition InvW : group -> state -> Prop := InvP SqSub.
+
+Lemma invp_weaken (P Q : list group -> list (id * N) -> Prop) g0 s :
+  (forall l q, P l q -> Q l q) -> InvP P g0 s -> InvP Q g0 s.
+Proof.
+  intros H (l & H1 & H2 & H3 & H4 & H5 & H6 & H7 & H8).
+  exists l. repeat (split; [assumption|]). apply H. exact H8.
+Qed.
+
+Lemma inv_invw g0 s : Inv g0 s -> InvW g0 s.
+Proof. apply invp_weaken. intros l q [H _]. exact H. Qed.
 
 (* ---------------------------------------------------------------- facts about [chain] *)
 Section Chain.
@@ -125,22 +147,153 @@ Proof.
   - apply IH; [|exact Hle]. intros g Hg. apply Hlt. right. exact Hg.
 Qed.
 
-Lemma sq_del_notin l i : ~ In i (map gid l) -> sq_del i (map row l) = map row l.
+Lemma lookup_some l x g : lookup l x = Some g -> In g l /\ gid g = x.
 Proof.
-  induction l as [|a r IH]; [reflexivity|].
-  cbn [map In]. intros H. unfold sq_del in *. cbn [filter row fst].
-  destruct (N.eqb_spec (gid a) i) as [E|E]; [tauto|].
-  cbn [negb]. f_equal. apply IH. tauto.
+  induction l as [|a r IH]; [discriminate|].
+  rewrite lookup_cons. destruct (N.eqb_spec x (gid a)) as [E|E].
+  - intros H. injection H as <-. split; [left; reflexivity|congruence].
+  - intros H. destruct (IH H). split; [right|]; assumption.
 Qed.
 
-Lemma sq_lookup_rows l x : sq_lookup (map row l) x = option_map gheight (lookup l x).
+Lemma gid_inj l x y : NoDup (map gid l) -> In x l -> In y l -> gid x = gid y -> x = y.
 Proof.
-  induction l as [|a r IH]; [reflexivity|].
-  unfold sq_lookup in *. cbn [map find row fst]. rewrite lookup_cons.
-  rewrite (N.eqb_sym (gid a) x). destruct (x =? gid a); [reflexivity|exact IH].
+  intros Hnd Hx Hy E. pose proof (lookup_in l x Hnd Hx) as H1.
+  pose proof (lookup_in l y Hnd Hy) as H2. rewrite E in H1. congruence.
+Qed.
+
+Lemma map_fst_row l : map fst (map row l) = map gid l.
+Proof. rewrite map_map. reflexivity. Qed.
+
+Lemma nodup_rows l : NoDup (map gid l) -> NoDup (map row l).
+Proof. intros H. apply (NoDup_map_inv fst). rewrite map_fst_row. exact H. Qed.
+
+(* ---------------------------------------------------------------- facts about the sqlite statements *)
+Lemma sq_del_in (i : N) (q : list (N * N)) (r : N * N) : In r (sq_del i q) <-> In r q /\ fst r <> i.
+Proof.
+  unfold sq_del. rewrite filter_In. cbv beta. destruct (fst r =? i) eqn:E; cbn [negb].
+  - apply N.eqb_eq in E. split; [intros [_ H]; discriminate H|tauto].
+  - apply N.eqb_neq in E. tauto.
+Qed.
+
+Lemma sq_del_nodup (i : N) (q : list (N * N)) : NoDup (map fst q) -> NoDup (map fst (sq_del i q)).
+Proof.
+  induction q as [|a q IH]; [intros; constructor|].
+  cbn [map]. intros H. inversion H as [|? ? Hni Hnd]; subst.
+  unfold sq_del in *. cbn [filter]. destruct (negb (fst a =? i)); [|apply IH; exact Hnd].
+  cbn [map]. constructor; [|apply IH; exact Hnd].
+  intros Hin. apply Hni. apply in_map_iff in Hin. destruct Hin as (r & E & Hr).
+  apply filter_In in Hr. apply in_map_iff. exists r. tauto.
+Qed.
+
+Lemma sq_del_notin (i : N) (q : list (N * N)) : ~ In i (map fst (sq_del i q)).
+Proof.
+  intros H. apply in_map_iff in H. destruct H as (r & E & Hr).
+  apply sq_del_in in Hr. tauto.
+Qed.
+
+Lemma sq_lookup_in (q : list (N * N)) (i h : N) : NoDup (map fst q) -> In (i, h) q -> sq_lookup q i = Some h.
+Proof.
+  induction q as [|a q IH]; [intros _ []|].
+  cbn [map]. intros Hnd Hin. inversion Hnd as [|? ? Hni Hnd']; subst.
+  unfold sq_lookup in *. cbn [find].
+  destruct Hin as [->|Hin].
+  - cbn [fst]. rewrite N.eqb_refl. reflexivity.
+  - destruct (N.eqb_spec (fst a) i) as [E|E].
+    + exfalso. apply Hni. rewrite E. apply (in_map fst _ _ Hin).
+    + apply IH; assumption.
+Qed.
+
+Lemma sq_lookup_notin (q : list (N * N)) (i : N) : ~ In i (map fst q) -> sq_lookup q i = None.
+Proof.
+  induction q as [|a q IH]; [reflexivity|].
+  cbn [map In]. intros H. unfold sq_lookup in *. cbn [find].
+  destruct (N.eqb_spec (fst a) i) as [E|E]; [tauto|]. apply IH. tauto.
+Qed.
+
+Lemma sqsub_fst l q i : SqSub l q -> In i (map fst q) -> In i (map gid l).
+Proof.
+  intros [_ Hs] H. apply in_map_iff in H. destruct H as (r & <- & Hr).
+  rewrite <- map_fst_row. apply in_map. apply Hs. exact Hr.
+Qed.
+
+(* save: replace INTO with the row of the new group, whose id is not listed *)
+Lemma sqsub_save l g q : SqSub l q -> SqSub (g :: l) (sq_replace (gid g) (gheight g) q).
+Proof.
+  intros [Hnd Hs]. unfold sq_replace. split.
+  - cbn [map fst]. constructor; [apply sq_del_notin|apply sq_del_nodup; exact Hnd].
+  - intros r [<-|Hr]; [left; reflexivity|]. right. apply Hs. apply sq_del_in in Hr. tauto.
+Qed.
+
+Lemma sqok_save l g q :
+  ~ In (gid g) (map gid l) -> SqOk l q -> SqOk (g :: l) (sq_replace (gid g) (gheight g) q).
+Proof.
+  intros Hni [Hsub Hc]. split; [apply sqsub_save; exact Hsub|].
+  intros r [<-|Hr]; [left; reflexivity|]. right. apply sq_del_in. split; [apply Hc; exact Hr|].
+  intros E. apply Hni. rewrite <- E, <- map_fst_row. apply in_map. exact Hr.
+Qed.
+
+(* remove: DELETE the row of the removed (first) group *)
+Lemma sqsub_remove g l q : SqSub (g :: l) q -> SqSub l (sq_del (gid g) q).
+Proof.
+  intros [Hnd Hs]. split; [apply sq_del_nodup; exact Hnd|].
+  intros r Hr. apply sq_del_in in Hr. destruct Hr as [Hr Hne].
+  destruct (Hs r Hr) as [<-|H]; [exfalso; apply Hne; reflexivity|exact H].
+Qed.
+
+Lemma sqok_remove g l q : NoDup (map gid (g :: l)) -> SqOk (g :: l) q -> SqOk l (sq_del (gid g) q).
+Proof.
+  intros Hnd [Hsub Hc]. split; [apply sqsub_remove; exact Hsub|].
+  intros r Hr. apply sq_del_in. split; [apply Hc; right; exact Hr|].
+  intros E. inversion Hnd as [|? ? Hni _]; subst. apply Hni.
+  rewrite <- E, <- map_fst_row. apply in_map. exact Hr.
+Qed.
+
+(* rows lost outside the node *)
+Lemma sqsub_drop l ids : forall q, SqSub l q -> SqSub l (drop_rows ids q).
+Proof.
+  unfold drop_rows. induction ids as [|i r IH]; intros q H; [exact H|].
+  cbn [fold_left]. apply IH. destruct H as [Hnd Hs]. split; [apply sq_del_nodup; exact Hnd|].
+  intros x Hx. apply Hs. apply sq_del_in in Hx. tauto.
+Qed.
+
+(* no row missing iff the row count is the list length (pigeonhole) *)
+Lemma sqok_length l q : NoDup (map gid l) -> SqOk l q -> length q = length l.
+Proof.
+  intros Hl [[Hnd Hs] Hc]. rewrite <- (map_length row l). apply PeanoNat.Nat.le_antisymm.
+  - apply NoDup_incl_length; [exact (NoDup_map_inv fst q Hnd)|exact Hs].
+  - apply NoDup_incl_length; [apply nodup_rows; exact Hl|exact Hc].
+Qed.
+
+Lemma sqsub_full l q : SqSub l q -> length q = length l -> SqOk l q.
+Proof.
+  intros [Hnd Hs] Hlen. split; [split; assumption|].
+  apply NoDup_length_incl; [exact (NoDup_map_inv fst q Hnd)|rewrite map_length; lia|exact Hs].
+Qed.
+
+Lemma sqok_lookup l q x : NoDup (map gid l) -> SqOk l q ->
+  sq_lookup q x = option_map gheight (lookup l x).
+Proof.
+  intros Hl [Hsub Hc]. destruct (lookup l x) as [g|] eqn:E; cbn [option_map].
+  - apply lookup_some in E. destruct E as [Hin <-].
+    apply sq_lookup_in; [exact (proj1 Hsub)|]. apply Hc. apply (in_map row _ _ Hin).
+  - apply sq_lookup_notin. intros H. apply (sqsub_fst _ _ _ Hsub) in H.
+    apply lookup_none in E. tauto.
 Qed.
 
 (* ---------------------------------------------------------------- the invariant is established and kept *)
+Definition op_wf (o : op) : Prop :=
+  match o with
+  | Add g => gid g <> null_id
+  | ForkSwitch _ gs => Forall (fun g => gid g <> null_id) gs
+  | _ => True
+  end.
+
+(* operations of the node itself (everything but the loss of sqlite rows) *)
+Definition no_loss (o : op) : Prop := match o with DropIndex _ => False | _ => True end.
+
+Lemma op_eq_restart o : o = Restart \/ o <> Restart.
+Proof. destruct o; [right|right|right|left|right|right]; congruence. Qed.
+
 Section Preservation.
 Variable g0 : group.
 Hypothesis G0 : genesis_ok g0.
@@ -153,12 +306,23 @@ Proof.
   - intros x. unfold upd. rewrite lookup_cons. reflexivity.
   - intros h. unfold upd. rewrite lookup_h_cons. cbn [set_height gheight gid lookup_h find].
     destruct (h =? 0); reflexivity.
-  - reflexivity.
+  - unfold sq_replace. cbn. split; [split|].
+    + constructor; [intros []|constructor].
+    + apply incl_refl.
+    + apply incl_refl.
 Qed.
 
+(* ---- the part common to the full and the weak invariant ---- *)
+Section Generic.
+Variable P : list group -> list (id * N) -> Prop.
+Hypothesis P_save : forall l g q,
+  ~ In (gid g) (map gid l) -> P l q -> P (g :: l) (sq_replace (gid g) (gheight g) q).
+Hypothesis P_remove : forall g l q,
+  NoDup (map gid (g :: l)) -> P (g :: l) q -> P l (sq_del (gid g) q).
+
 Lemma inv_save s g :
-  Inv g0 s -> gid g <> null_id -> groups (st s) (gid g) = None -> gpre g = gid (last s) ->
-  Inv g0 (save s g).
+  InvP P g0 s -> gid g <> null_id -> groups (st s) (gid g) = None -> gpre g = gid (last s) ->
+  InvP P g0 (save s g).
 Proof.
   intros (l & Hc & Hhd & Hn & Hgc & Hcur & Hg & Hi & Hsq) Hnn Hnone Hpre.
   destruct l as [|p r]; [destruct Hc|]. cbn [hd_error] in Hhd. injection Hhd as Hp.
@@ -175,10 +339,10 @@ Proof.
   - intros x. unfold upd. rewrite lookup_cons. cbn [set_height gid]. rewrite Hg. reflexivity.
   - intros h. unfold upd. rewrite lookup_h_cons. cbn [set_height gheight].
     rewrite Hi. destruct (h =? count s); reflexivity.
-  - rewrite Hsq. unfold sq_replace. rewrite (sq_del_notin _ _ Hnone). reflexivity.
+  - apply (P_save (p :: r) (set_height g (count s))); assumption.
 Qed.
 
-Lemma inv_add s g : Inv g0 s -> gid g <> null_id -> Inv g0 (fst (add_group s g)).
+Lemma inv_add s g : InvP P g0 s -> gid g <> null_id -> InvP P g0 (fst (add_group s g)).
 Proof.
   intros HI Hnn. unfold add_group, has.
   destruct (groups (st s) (gid g)) eqn:E1; [exact HI|].
@@ -189,9 +353,9 @@ Qed.
 
 (* remove(lastGroup), repaired statement *)
 Lemma inv_remove_last s :
-  Inv g0 s ->
+  InvP P g0 s ->
   let s' := fst (remove true s (last s)) in
-  Inv g0 s' /\ (2 <= count s -> count s' = count s - 1).
+  InvP P g0 s' /\ (2 <= count s -> count s' = count s - 1).
 Proof.
   intros HI. pose proof HI as (l & Hc & Hhd & Hn & Hgc & Hcur & Hg & Hi & Hsq).
   destruct l as [|g r]; [destruct Hc|]. cbn [hd_error] in Hhd. injection Hhd as Hp. subst g.
@@ -205,6 +369,7 @@ Proof.
   - pose proof (chain_tail _ _ _ _ Hc) as Ht.
     pose proof (chain_heights_lt _ _ Ht) as Hlt.
     pose proof (chain_hd_height _ _ _ Hc) as Hh.
+    pose proof (chain_nodup _ _ Hc) as Hnd.
     cbn [chain] in Hc. destruct Hc as (Hpre & _ & Hni & Hnn & _).
     assert (Hne : gid p <> gid (last s)) by (intros E; apply Hni; left; exact E).
     rewrite Hpre, lookup_cons.
@@ -224,11 +389,10 @@ Proof.
       * rewrite Hi, lookup_h_cons.
         destruct (N.eqb_spec h (gheight (last s))) as [E'|_]; [|reflexivity].
         exfalso. apply E. rewrite E', Hh, Hcnt. reflexivity.
-    + rewrite Hsq. cbn [map]. unfold sq_del at 1. cbn [filter row fst].
-      rewrite N.eqb_refl. cbn [negb]. apply (sq_del_notin (p :: r')). exact Hni.
+    + apply P_remove; assumption.
 Qed.
 
-Lemma top_is_last s : Inv g0 s -> get_by_height s (count s - 1) = Some (last s).
+Lemma top_is_last s : InvP P g0 s -> get_by_height s (count s - 1) = Some (last s).
 Proof.
   intros (l & Hc & Hhd & Hn & _ & _ & Hg & Hi & _).
   destruct l as [|g r]; [destruct Hc|]. cbn [hd_error] in Hhd. injection Hhd as Hp. subst g.
@@ -239,7 +403,7 @@ Proof.
 Qed.
 
 Lemma inv_rm_loop n : forall s,
-  Inv g0 s -> N.of_nat n < count s -> Inv g0 (rm_loop true n (count s - 1) s).
+  InvP P g0 s -> N.of_nat n < count s -> InvP P g0 (rm_loop true n (count s - 1) s).
 Proof.
   induction n as [|n IH]; intros s HI Hlt; [exact HI|].
   cbn [rm_loop]. rewrite (top_is_last _ HI).
@@ -248,7 +412,7 @@ Proof.
   specialize (Hc' H2). rewrite <- Hc'. apply IH; [exact HI'|]. lia.
 Qed.
 
-Lemma inv_remove_from s anc : Inv g0 s -> Inv g0 (remove_from true s anc).
+Lemma inv_remove_from s anc : InvP P g0 s -> InvP P g0 (remove_from true s anc).
 Proof.
   intros HI. unfold remove_from, chain_height.
   destruct (N.ltb_spec 1 (count s)) as [H|H].
@@ -256,23 +420,28 @@ Proof.
   - replace (0 - gheight anc) with 0 by lia. exact HI.
 Qed.
 
-(* a restart on a reachable store gives back exactly the state before it *)
-Lemma restart_identity s : Inv g0 s -> boot (st s) g0 = BootOk s.
+(* triggerOnChain: the additions stop at the first refusal *)
+Lemma inv_add_all gs : forall s,
+  InvP P g0 s -> Forall (fun g => gid g <> null_id) gs -> InvP P g0 (fst (add_all s gs)).
 Proof.
-  intros (l & Hc & Hhd & Hn & Hgc & Hcur & Hg & Hi & Hsq).
-  destruct l as [|g r]; [destruct Hc|]. cbn [hd_error] in Hhd. injection Hhd as Hp. subst g.
-  unfold boot. rewrite Hcur, Hg, lookup_cons, N.eqb_refl.
-  unfold refresh_cache, sq_count. rewrite Hsq, map_length, Hgc, Hn, N.eqb_refl.
-  destruct s as [p c lg]. cbn [st count last] in *. rewrite <- Hn. reflexivity.
+  induction gs as [|g r IH]; intros s HI Hwf; [exact HI|].
+  inversion Hwf as [|? ? Hg Hr]; subst. cbn [add_all].
+  pose proof (inv_add s g HI Hg) as HI'.
+  destruct (add_group s g) as [s' c]. cbn [fst] in HI'.
+  destruct (c =? 0); [apply IH; assumption|exact HI'].
 Qed.
 
-Definition op_wf (o : op) : Prop := match o with Add g => gid g <> null_id | _ => True end.
+Lemma inv_trigger s anc gs :
+  InvP P g0 s -> Forall (fun g => gid g <> null_id) gs ->
+  InvP P g0 (fst (trigger_on_chain true s anc gs)).
+Proof. intros HI Hwf. apply inv_add_all; [apply inv_remove_from; exact HI|exact Hwf]. Qed.
 
-Lemma inv_step s o :
-  Inv g0 s -> op_wf o ->
-  Inv g0 (fst (step true g0 s o)) /\ snd (step true g0 s o) < 98.
+(* every operation of the node except a restart *)
+Lemma invp_step_core s o :
+  InvP P g0 s -> op_wf o -> no_loss o -> o <> Restart ->
+  InvP P g0 (fst (step true g0 s o)) /\ snd (step true g0 s o) < 98.
 Proof.
-  intros HI Hwf. destruct o as [g| |h|]; cbn [step].
+  intros HI Hwf Hnl Hnr. destruct o as [g| |h| |h gs|ids]; cbn [step].
   - split; [apply inv_add; assumption|].
     unfold add_group. destruct (has s (gid g)); [cbn; lia|].
     destruct (negb (has s (gparent g))); [cbn; lia|].
@@ -283,25 +452,185 @@ Proof.
   - destruct (get_by_height s h) as [anc|]; cbn [fst snd].
     + split; [apply inv_remove_from; exact HI|lia].
     + split; [exact HI|lia].
-  - rewrite (restart_identity s HI). cbn [fst snd]. split; [exact HI|lia].
+  - congruence.
+  - destruct (get_by_height s h) as [anc|]; cbn [fst snd]; [|split; [exact HI|lia]].
+    pose proof (inv_trigger s anc gs HI Hwf) as HI'.
+    destruct (trigger_on_chain true s anc gs) as [s' b]. cbn [fst snd] in *.
+    split; [exact HI'|]. destruct b; lia.
+  - destruct Hnl.
+Qed.
+End Generic.
+
+(* ---- restart ---- *)
+(* a restart on a store satisfying the full invariant gives back exactly the state before it *)
+Lemma restart_identity s : Inv g0 s -> boot (st s) g0 = BootOk s.
+Proof.
+  intros (l & Hc & Hhd & Hn & Hgc & Hcur & Hg & Hi & Hsq).
+  pose proof (sqok_length _ _ (chain_nodup _ _ Hc) Hsq) as Hlen.
+  destruct l as [|g r]; [destruct Hc|]. cbn [hd_error] in Hhd. injection Hhd as Hp. subst g.
+  unfold boot. rewrite Hcur, Hg, lookup_cons, N.eqb_refl.
+  unfold refresh_cache, sq_count. rewrite Hlen, Hgc, Hn, N.eqb_refl.
+  destruct s as [p c lg]. cbn [st count last] in *. rewrite <- Hn. reflexivity.
 Qed.
 
-Lemma inv_run ops : forall s,
-  Inv g0 s -> Forall op_wf ops ->
-  Inv g0 (fst (run true g0 s ops)) /\ Forall (fun c => c < 98) (snd (run true g0 s ops)).
+(* refreshCache's loop: from any group of the list it walks to genesis, and afterwards every group it
+   met has its row, no correct row was lost and no wrong row appeared *)
+Lemma refresh_walk_spec l gs : chain g0 l -> (forall x, gs x = lookup l x) ->
+  forall r g q fuel, chain g0 (g :: r) -> incl (g :: r) l -> (length r < fuel)%nat -> SqSub l q ->
+  exists q', refresh_walk fuel gs g q = Some q' /\ SqSub l q' /\ incl q q' /\ incl (map row (g :: r)) q'.
+Proof.
+  intros Hc Hgs. pose proof (chain_nodup _ _ Hc) as Hnd.
+  induction r as [|p r' IH]; intros g q fuel Hcs Hsub Hf HS.
+  - destruct fuel as [|f]; [lia|]. cbn [refresh_walk].
+    assert (Hgl : In g l) by (apply Hsub; left; reflexivity).
+    assert (HS1 : SqSub l (sq_replace (gid g) (gheight g) q)).
+    { destruct (sqsub_save l g q HS) as [H1 H2]. split; [exact H1|].
+      intros x Hx. destruct (H2 x Hx) as [<-|H]; [apply (in_map row _ _ Hgl)|exact H]. }
+    assert (Hq1 : incl q (sq_replace (gid g) (gheight g) q)).
+    { intros x Hx. unfold sq_replace. destruct (N.eq_dec (fst x) (gid g)) as [E|E].
+      - left. destruct HS as [_ HS2]. specialize (HS2 x Hx). apply in_map_iff in HS2.
+        destruct HS2 as (y & <- & Hy). cbn [row fst] in E.
+        rewrite (gid_inj l y g Hnd Hy Hgl E). reflexivity.
+      - right. apply sq_del_in. tauto. }
+    cbn [chain] in Hcs.
+    assert (Hgp : gpre g = null_id) by (rewrite Hcs; cbn [set_height gpre]; apply G0).
+    rewrite Hgs, Hgp.
+    rewrite (proj2 (lookup_none l null_id) (chain_nonnull _ G0 _ Hc)).
+    eexists. split; [reflexivity|]. split; [exact HS1|]. split; [exact Hq1|].
+    intros x [<-|[]]. left. reflexivity.
+  - destruct fuel as [|f]; [lia|]. cbn [refresh_walk].
+    assert (Hgl : In g l) by (apply Hsub; left; reflexivity).
+    assert (Hpl : In p l) by (apply Hsub; right; left; reflexivity).
+    assert (HS1 : SqSub l (sq_replace (gid g) (gheight g) q)).
+    { destruct (sqsub_save l g q HS) as [H1 H2]. split; [exact H1|].
+      intros x Hx. destruct (H2 x Hx) as [<-|H]; [apply (in_map row _ _ Hgl)|exact H]. }
+    assert (Hq1 : incl q (sq_replace (gid g) (gheight g) q)).
+    { intros x Hx. unfold sq_replace. destruct (N.eq_dec (fst x) (gid g)) as [E|E].
+      - left. destruct HS as [_ HS2]. specialize (HS2 x Hx). apply in_map_iff in HS2.
+        destruct HS2 as (y & <- & Hy). cbn [row fst] in E.
+        rewrite (gid_inj l y g Hnd Hy Hgl E). reflexivity.
+      - right. apply sq_del_in. tauto. }
+    pose proof (chain_tail _ _ _ _ Hcs) as Ht. cbn [chain] in Hcs. destruct Hcs as (Hpre & _).
+    rewrite Hgs, Hpre, (lookup_in l p Hnd Hpl).
+    destruct (IH p (sq_replace (gid g) (gheight g) q) f Ht) as (q' & E & HS' & Hi1 & Hi2).
+    + intros x Hx. apply Hsub. right. exact Hx.
+    + cbn [length] in Hf. lia.
+    + exact HS1.
+    + exists q'. split; [exact E|]. split; [exact HS'|]. split.
+      * intros x Hx. apply Hi1. apply Hq1. exact Hx.
+      * intros x [<-|Hx]; [apply Hi1; left; reflexivity|apply Hi2; exact Hx].
+Qed.
+
+(* a restart repairs the sqlite index: from the weak invariant it terminates, does not panic, changes
+   nothing but the sqlite rows, and gives the full invariant *)
+Lemma restart_heals s : InvW g0 s ->
+  exists q, boot (st s) g0 = BootOk (set_sq s q) /\ Inv g0 (set_sq s q).
+Proof.
+  intros (l & Hc & Hhd & Hn & Hgc & Hcur & Hg & Hi & Hsq).
+  pose proof (chain_nodup _ _ Hc) as Hnd.
+  assert (Hkeep : forall q, SqOk l q -> Inv g0 (set_sq s q)).
+  { intros q Hq. exists l. unfold set_sq. cbn [st count last groups idx gcur gcnt sq].
+    repeat (split; [assumption|]). exact Hq. }
+  assert (exists r, l = last s :: r) as [r El].
+  { destruct l as [|g r]; [destruct Hc|]. cbn [hd_error] in Hhd. injection Hhd as ->.
+    eexists; reflexivity. }
+  assert (Hlen : length l = S (length r)) by (rewrite El; reflexivity).
+  assert (Hin : In (last s) l) by (rewrite El; left; reflexivity).
+  unfold boot. rewrite Hcur, Hg, (lookup_in l (last s) Hnd Hin).
+  unfold refresh_cache.
+  assert (Est : forall q, {| st := {| groups := groups (st s); idx := idx (st s); gcur := gcur (st s);
+                                      gcnt := gcnt (st s); sq := q |};
+                             count := gcnt (st s); last := last s |} = set_sq s q).
+  { intros q. unfold set_sq. rewrite Hgc. reflexivity. }
+  destruct (N.eqb_spec (sq_count (sq (st s))) (gcnt (st s))) as [E|E].
+  - exists (sq (st s)). split.
+    + rewrite <- Est. destruct s as [[a b c d e] n lg]. reflexivity.
+    + apply Hkeep. apply sqsub_full; [exact Hsq|]. unfold sq_count in E. lia.
+  - destruct (refresh_walk_spec l (groups (st s)) Hc Hg r (last s) (sq (st s))
+                (S (S (N.to_nat (gcnt (st s))))))
+      as (q' & E' & HS' & _ & Hall).
+    + rewrite <- El. exact Hc.
+    + rewrite <- El. apply incl_refl.
+    + lia.
+    + exact Hsq.
+    + rewrite E'. exists q'. split; [rewrite Est; reflexivity|].
+      apply Hkeep. split; [exact HS'|]. rewrite El. exact Hall.
+Qed.
+
+Lemma set_sq_same s : set_sq s (sq (st s)) = s.
+Proof. destruct s as [[a b c d e] n lg]. reflexivity. Qed.
+
+(* ---- one step ---- *)
+Lemma inv_step s o :
+  Inv g0 s -> op_wf o -> no_loss o ->
+  Inv g0 (fst (step true g0 s o)) /\ snd (step true g0 s o) < 98.
+Proof.
+  intros HI Hwf Hnl. destruct (op_eq_restart o) as [->|Hne].
+  - cbn [step]. rewrite (restart_identity s HI). cbn [fst snd]. split; [exact HI|lia].
+  - apply (invp_step_core SqOk); try assumption.
+    + intros l g q. apply sqok_save.
+    + intros g l q. apply sqok_remove.
+Qed.
+
+Lemma invw_step s o :
+  InvW g0 s -> op_wf o ->
+  InvW g0 (fst (step true g0 s o)) /\ snd (step true g0 s o) < 98.
+Proof.
+  intros HI Hwf. destruct (op_eq_restart o) as [->|Hne].
+  - cbn [step]. destruct (restart_heals s HI) as (q & -> & HI'). cbn [fst snd].
+    split; [apply inv_invw; exact HI'|lia].
+  - destruct o as [g| |h| |h gs|ids];
+      try (apply (invp_step_core SqSub); try assumption; try exact I;
+           [intros l g' q _; apply sqsub_save|intros g' l q _; apply sqsub_remove]).
+    cbn [step fst snd]. split; [|lia].
+    destruct HI as (l & H1 & H2 & H3 & H4 & H5 & H6 & H7 & H8).
+    exists l. unfold set_sq. cbn [st count last groups idx gcur gcnt sq].
+    repeat (split; [assumption|]). apply sqsub_drop. exact H8.
+Qed.
+
+(* whatever was lost, a restart gives the full invariant back *)
+Lemma restart_restores s : InvW g0 s -> Inv g0 (fst (step true g0 s Restart)).
+Proof.
+  intros HI. cbn [step]. destruct (restart_heals s HI) as (q & -> & HI'). exact HI'.
+Qed.
+
+Lemma invw_run ops : forall s,
+  InvW g0 s -> Forall op_wf ops ->
+  InvW g0 (fst (run true g0 s ops)) /\ Forall (fun c => c < 98) (snd (run true g0 s ops)).
 Proof.
   induction ops as [|o r IH]; intros s HI Hwf; cbn [run].
   - split; [exact HI|constructor].
   - inversion Hwf as [|? ? Ho Hr]; subst.
-    destruct (inv_step s o HI Ho) as [HI' Hc].
+    destruct (invw_step s o HI Ho) as [HI' Hc].
     destruct (step true g0 s o) as [s' c]. cbn [fst snd] in *.
     destruct (IH s' HI' Hr) as [HI'' Hcs].
     destruct (run true g0 s' r) as [s'' cs]. cbn [fst snd] in *.
     split; [exact HI''|constructor; assumption].
 Qed.
 
+Lemma inv_run ops : forall s,
+  Inv g0 s -> Forall op_wf ops -> Forall no_loss ops -> Inv g0 (fst (run true g0 s ops)).
+Proof.
+  induction ops as [|o r IH]; intros s HI Hwf Hnl; cbn [run]; [exact HI|].
+  inversion Hwf as [|? ? Ho Hr]; subst. inversion Hnl as [|? ? Hl Hlr]; subst.
+  destruct (inv_step s o HI Ho Hl) as [HI' _].
+  destruct (step true g0 s o) as [s' c]. cbn [fst] in *.
+  specialize (IH s' HI' Hr Hlr).
+  destruct (run true g0 s' r) as [s'' cs]. exact IH.
+Qed.
+
+Lemma run_app fx a : forall s b,
+  fst (run fx g0 s (a ++ b)) = fst (run fx g0 (fst (run fx g0 s a)) b).
+Proof.
+  induction a as [|o r IH]; intros s b; [reflexivity|].
+  cbn [app run]. destruct (step fx g0 s o) as [s' c]. specialize (IH s' b).
+  destruct (run fx g0 s' (r ++ b)) as [s1 c1]. destruct (run fx g0 s' r) as [s2 c2].
+  cbn [fst] in *. exact IH.
+Qed.
+
 (* where no group is removed the original and the repaired code are the same function *)
-Definition no_remove (o : op) : Prop := match o with RemoveLast | RemoveFrom _ => False | _ => True end.
+Definition no_remove (o : op) : Prop :=
+  match o with RemoveLast | RemoveFrom _ | ForkSwitch _ _ => False | _ => True end.
 
 Lemma step_fx_irrelevant s o : no_remove o -> step false g0 s o = step true g0 s o.
 Proof. destruct o; cbn; tauto. Qed.
@@ -404,9 +733,10 @@ Lemma inv_sqlite s : Inv g0 s ->
   sq_count (sq (st s)) = count s /\
   forall x, sq_lookup (sq (st s)) x = option_map gheight (get_by_id s x).
 Proof.
-  intros (l & _ & _ & Hn & _ & _ & Hg & _ & Hsq). split.
-  - unfold sq_count. rewrite Hsq, map_length. symmetry. exact Hn.
-  - intros x. unfold get_by_id. rewrite Hsq, Hg. apply sq_lookup_rows.
+  intros (l & Hc & _ & Hn & _ & _ & Hg & _ & Hsq).
+  pose proof (chain_nodup _ _ Hc) as Hnd. split.
+  - unfold sq_count. rewrite (sqok_length _ _ Hnd Hsq). symmetry. exact Hn.
+  - intros x. unfold get_by_id. rewrite Hg. apply sqok_lookup; assumption.
 Qed.
 
 (* GetSyncGroupsById returns the (at most five) groups that follow, none of them nil *)
@@ -451,15 +781,15 @@ Proof.
   apply sync_from_spec; assumption.
 Qed.
 
-Lemma inv_spec_sync s : Inv g0 s -> exists l, SpecL g0 s l /\ SyncL s l.
+Lemma inv_spec_sync P s : InvP P g0 s -> exists l, SpecL g0 s l /\ SyncL s l.
 Proof.
   intros (l & Hc & Hhd & Hn & _ & _ & Hg & Hi & _). exists (rev l). split.
   - apply inv_specL; assumption.
   - apply inv_syncL; assumption.
 Qed.
 
-Lemma inv_spec s : Inv g0 s -> Spec g0 s.
-Proof. intros H. destruct (inv_spec_sync s H) as (l & Hs & _). exists l. exact Hs. Qed.
+Lemma inv_spec P s : InvP P g0 s -> Spec g0 s.
+Proof. intros H. destruct (inv_spec_sync P s H) as (l & Hs & _). exists l. exact Hs. Qed.
 End SpecFromInv.
 
 (* ---------------------------------------------------------------- remove as originally written *)
@@ -494,7 +824,7 @@ Proof.
   exists wg0, (fst (run true wg0 (init wg0) [Add wg1])).
   assert (G : genesis_ok wg0) by (split; [discriminate|reflexivity]).
   split; [exact G|]. split.
-  - apply inv_run; [exact G|apply inv_init|repeat constructor; discriminate].
+  - apply inv_run; [exact G|apply inv_init|repeat constructor; discriminate|repeat constructor].
   - intros (l & _ & _ & _ & _ & Hge & _).
     specialize (Hge 2).
     assert (E : get_by_height (fst (step false wg0 (fst (run true wg0 (init wg0) [Add wg1])) RemoveLast)) 2
@@ -506,22 +836,53 @@ Proof.
 Qed.
 
 (* ---------------------------------------------------------------- statements over whole histories *)
-Lemma reachable_inv g0 ops : genesis_ok g0 -> Forall op_wf ops ->
-  Inv g0 (fst (run true g0 (init g0) ops)) /\ Forall (fun c => c < 98) (snd (run true g0 (init g0) ops)).
-Proof. intros G H. apply inv_run; [exact G|apply inv_init|exact H]. Qed.
+(* every history, including losses of sqlite rows *)
+Lemma reachable_invw g0 ops : genesis_ok g0 -> Forall op_wf ops ->
+  InvW g0 (fst (run true g0 (init g0) ops)) /\ Forall (fun c => c < 98) (snd (run true g0 (init g0) ops)).
+Proof. intros G H. apply invw_run; [exact G|apply inv_invw; apply inv_init|exact H]. Qed.
+
+(* the sqlite index is settled at the end of a history when nothing was lost since the last restart
+   (or at all) *)
+Definition index_settled (ops : list op) : Prop :=
+  exists ops1 ops2, Forall no_loss ops2 /\ (ops = ops2 \/ ops = ops1 ++ Restart :: ops2).
+
+Lemma forall_app_r {A} (Q : A -> Prop) a b : Forall Q (a ++ b) -> Forall Q b.
+Proof. induction a as [|x a IH]; [auto|]. cbn [app]. intros H. inversion H; subst. auto. Qed.
+Lemma forall_app_l {A} (Q : A -> Prop) a b : Forall Q (a ++ b) -> Forall Q a.
+Proof.
+  induction a as [|x a IH]; [constructor|]. cbn [app]. intros H. inversion H; subst.
+  constructor; auto.
+Qed.
+
+Lemma reachable_inv g0 ops : genesis_ok g0 -> Forall op_wf ops -> index_settled ops ->
+  Inv g0 (fst (run true g0 (init g0) ops)).
+Proof.
+  intros G Hwf (ops1 & ops2 & Hnl & [->| ->]).
+  - apply inv_run; [exact G|apply inv_init|exact Hwf|exact Hnl].
+  - rewrite run_app. pose proof (forall_app_l _ _ _ Hwf) as Hwf1.
+    pose proof (forall_app_r _ _ _ Hwf) as Hwf2. inversion Hwf2 as [|? ? _ Hwf3]; subst.
+    destruct (reachable_invw g0 ops1 G Hwf1) as [HW _].
+    pose proof (restart_restores g0 G _ HW) as HI.
+    cbn [run]. destruct (step true g0 (fst (run true g0 (init g0) ops1)) Restart) as [s' c].
+    cbn [fst] in HI.
+    pose proof (inv_run g0 G ops2 s' HI Hwf3 Hnl) as HI2.
+    destruct (run true g0 s' ops2) as [s'' cs]. exact HI2.
+Qed.
 
 Lemma reachable_spec g0 ops : genesis_ok g0 -> Forall op_wf ops ->
   let s := fst (run true g0 (init g0) ops) in
   (exists l, SpecL g0 s l /\ SyncL s l) /\
-  sq_count (sq (st s)) = count s /\
-  (forall x, sq_lookup (sq (st s)) x = option_map gheight (get_by_id s x)) /\
-  step true g0 s Restart = (s, 0) /\
-  Forall (fun c => c < 98) (snd (run true g0 (init g0) ops)).
+  Forall (fun c => c < 98) (snd (run true g0 (init g0) ops)) /\
+  (index_settled ops ->
+     sq_count (sq (st s)) = count s /\
+     (forall x, sq_lookup (sq (st s)) x = option_map gheight (get_by_id s x)) /\
+     step true g0 s Restart = (s, 0)).
 Proof.
-  intros G H. destruct (reachable_inv g0 ops G H) as [HI Hc]. cbn zeta.
-  split; [exact (inv_spec_sync g0 G _ HI)|].
+  intros G H. destruct (reachable_invw g0 ops G H) as [HW Hc]. cbn zeta.
+  split; [exact (inv_spec_sync g0 G _ _ HW)|]. split; [exact Hc|].
+  intros Hs. pose proof (reachable_inv g0 ops G H Hs) as HI.
   destruct (inv_sqlite g0 _ HI) as [H1 H2].
-  split; [exact H1|]. split; [exact H2|]. split; [|exact Hc].
+  split; [exact H1|]. split; [exact H2|].
   cbn [step]. rewrite (restart_identity g0 _ HI). reflexivity.
 Qed.
 
@@ -529,5 +890,5 @@ Lemma original_without_remove g0 ops : genesis_ok g0 -> Forall op_wf ops -> Fora
   Spec g0 (fst (run false g0 (init g0) ops)).
 Proof.
   intros G H Hn. rewrite run_fx_irrelevant by exact Hn.
-  apply inv_spec; [exact G|]. apply reachable_inv; assumption.
+  apply (inv_spec g0 G SqSub). apply reachable_invw; assumption.
 Qed.
